@@ -31,13 +31,16 @@ def lab(scheme, i):
         return f"n{i}"
     if scheme == 2:
         return (i // 3, i % 3)
+    if scheme == 4:  # falsy / singleton hashables are legal node labels too ("any node labels")
+        exotic = [None, "", (), 0, frozenset(), 0.5, "None", -1, (None,), "0", b"", 7]
+        return exotic[i] if i < len(exotic) else ("x", i)
     return [i, f"n{i}", (i, "x")][i % 3]
 
 
 @st.composite
 def graphs(draw, tier="quick"):
     nmax = 12 if tier == "thorough" else 9
-    scheme = draw(st.integers(0, 3))
+    scheme = draw(st.integers(0, 4))
     family = draw(st.sampled_from(["uniform", "trap", "trap", "uniform-dense"]))
     cap = st.integers(0, 5)
     if family.startswith("uniform"):
@@ -68,6 +71,8 @@ def graphs(draw, tier="quick"):
             prev = nxt
             nxt += 1
         arcs.append([prev, 3, draw(pc)])
+        if draw(st.booleans()):  # anti-parallel partner of the arc that must be cancelled: cancel-and-push-back in one step
+            arcs.append([2, 1, draw(st.integers(1, 2))])
         n = nxt
         extra = draw(st.lists(st.tuples(st.integers(0, n - 1), st.integers(0, n - 1), cap), max_size=4))
         arcs += [list(a) for a in extra if a[0] != a[1]]
